@@ -303,6 +303,8 @@ pub struct ModelTree {
     /// every path the model touched (for the "nothing else changes" check)
     pub touched: BTreeSet<String>,
     pub platform: u16,
+    /// a command needed a directory where a regular file sits: the reference fails there
+    pub blocked: bool,
 }
 
 pub fn platform_tag(p: u16) -> &'static str {
@@ -361,6 +363,9 @@ impl ModelTree {
                 cur.push('/');
             }
             cur.push_str(c);
+            if self.files.contains_key(&cur) {
+                self.blocked = true;
+            }
             self.dirs.insert(cur.clone());
         }
     }
